@@ -80,6 +80,7 @@ Definition stw_wpc_code (p : Stw.wpcT) : nat :=
   | Stw.WTop => 100 | Stw.WL1 => 101 | Stw.WDeq => 102 | Stw.WU1t => 103 | Stw.WRun => 104 | Stw.WU1 => 105
   | Stw.WL2 => 106 | Stw.WL2a => 107 | Stw.WL2b => 108 | Stw.WWait => 109 | Stw.WWoken => 110 | Stw.WExit => 111
   | Stw.WDead => 112
+  | Stw.WSdStart => 113 | Stw.WSdLocked => 114 | Stw.WSdRet0 => 115 | Stw.WSdRetA => 116
   end.
 
 Definition stw_cpc_code (q : bool) (p : Stw.cpcT) : nat :=
@@ -201,58 +202,72 @@ Definition tp_variant_edges : list edge := [ (2, 0, 50, 3, 1); (2, 0, 2, 24, 1);
    (shortest trace to each edge over a family of configurations, greedy selection).  Threads: Stw 0 = worker, Tp 0.. =
    pool threads, 10 / 11 = clients, 20 = caller of shutdown, 30 = overflow thread. *)
 Definition stw_witness : list (Stw.cfg * list (tid * ev)) :=
-  [ (Stw.mkcfg 1 true true false,
+  [ (Stw.mkcfg 1 true true false false,
      [(10, ECall 0 0 false); (10, ELock); (10, EEnq 0); (10, EBcast 0); (10, EUnlock); (10, ERet 0 true); (0, ELock); (0, EDeq 0); (0, EUnlock); (0, ERun 0); (10, ECall 0 1 false); (10, ELock); (10, EEnq 1); (10, EBcast 0); (10, EUnlock); (10, ERet 0 true); (10, ECall 0 2 false); (10, ELock); (10, EWait 1); (20, ECall 3 0 false); (20, ELock); (20, EDiscard 1); (20, EBcast 0); (20, EBcast 1); (20, EUnlock); (0, EDone 0); (0, ELock); (0, EUnlock); (0, EExit); (10, EWake 1); (10, EEnq 2); (10, EBcast 0); (10, EUnlock); (10, ERet 0 true); (20, EJoin 0); (20, EFree); (20, ERet 0 false)]);
-    (Stw.mkcfg 3 true true true,
+    (* iwstw_shutdown called from the task body: the harness traces of the code as found (selfunlock = false: returns
+       IW_ERROR_ASSERTION with the mutex still locked) and of the variant that unlocks first *)
+    (Stw.mkcfg 0 false false true false,
+     [(10, ECall 0 0 false); (10, ELock); (10, EEnq 0); (10, EBcast 0); (10, EUnlock); (10, ERet 0 true); (0, ELock); (0, EDeq 0); (0, EUnlock); (0, ERun 0); (0, ECall 3 0 true); (0, ELock); (0, ERet 3 false); (0, EDone 0)]);
+    (Stw.mkcfg 0 false false true true,
+     [(10, ECall 0 0 false); (10, ELock); (10, EEnq 0); (10, EBcast 0); (10, EUnlock); (10, ERet 0 true); (0, ELock); (0, EDeq 0); (0, EUnlock); (0, ERun 0); (0, ECall 3 0 true); (0, ELock); (0, EUnlock); (0, ERet 3 false); (0, EDone 0)]);
+    (Stw.mkcfg 3 true true true true,
      [(10, ECall 0 0 false); (10, ELock); (10, EEnq 0); (10, EBcast 0); (10, EUnlock); (10, ERet 0 true); (10, ECall 0 1 false); (10, ELock); (10, EEnq 1); (10, EBcast 0); (10, EUnlock); (10, ERet 0 true); (10, ECall 0 2 false); (10, ELock); (10, EEnq 2); (10, EBcast 0); (10, EUnlock); (11, ECall 0 3 false); (11, ELock); (11, EWait 1); (0, ELock); (0, EDeq 0); (0, EUnlock); (0, ERun 0); (0, EDone 0); (20, ECall 3 0 true); (20, ELock); (20, EBcast 0); (20, EBcast 1); (20, EUnlock); (0, ELock); (0, EBcast 1)]);
-    (Stw.mkcfg 3 true true true,
+    (Stw.mkcfg 3 true true true true,
      [(10, ECall 0 0 false); (10, ELock); (10, EEnq 0); (10, EBcast 0); (10, EUnlock); (10, ERet 0 true); (10, ECall 0 1 false); (10, ELock); (10, EEnq 1); (10, EBcast 0); (10, EUnlock); (10, ERet 0 true); (10, ECall 0 2 false); (10, ELock); (10, EEnq 2); (10, EBcast 0); (10, EUnlock); (11, ECall 0 3 false); (11, ELock); (11, EWait 1); (0, ELock); (0, EDeq 0); (0, EUnlock); (0, ERun 0); (0, EDone 0); (0, ELock); (0, EBcast 1); (0, EUnlock)]);
-    (Stw.mkcfg 1 true true true,
+    (Stw.mkcfg 1 false true true true,
+     [(10, ECall 0 0 false); (10, ELock); (10, EEnq 0); (10, EBcast 0); (10, EUnlock); (0, ELock); (0, EDeq 0); (0, EUnlock); (0, ERun 0); (0, ECall 3 0 false); (20, ECall 3 0 false); (20, ELock); (20, EBcast 0); (20, EUnlock); (0, ELock); (0, EUnlock); (0, ERet 0 false)]);
+    (Stw.mkcfg 1 true true true true,
      [(10, ECall 0 0 false); (10, ELock); (10, EEnq 0); (10, EBcast 0); (10, EUnlock); (11, ECall 0 1 false); (11, ELock); (11, EWait 1); (0, ELock); (0, EDeq 0); (0, EUnlock); (0, ERun 0); (0, EDone 0); (0, ELock); (0, EBcast 1); (0, EWait 0)]);
-    (Stw.mkcfg 1 true false false,
-     [(10, ECall 0 0 false); (10, ELock); (10, EEnq 0); (10, EBcast 0); (10, EUnlock); (11, ECall 0 1 false); (11, ELock); (11, EWait 1); (20, ECall 3 0 false); (20, ELock); (20, EBcast 0); (20, EBcast 1); (20, EUnlock); (11, EWake 1); (11, EEnq 1)]);
-    (Stw.mkcfg 1 false true true,
+    (Stw.mkcfg 1 false true true true,
      [(0, ELock); (0, EUnlock); (20, ECall 3 0 false); (20, ELock); (20, EBcast 0); (20, EUnlock); (0, ELock); (0, EUnlock); (0, EExit); (20, EJoin 0); (20, EFree); (20, ERet 0 false); (20, ECall 3 0 false); (20, ELock); (20, EUnlock)]);
-    (Stw.mkcfg 1 true true true,
+    (Stw.mkcfg 1 true true true true,
      [(10, ECall 0 0 false); (10, ELock); (10, EEnq 0); (10, EBcast 0); (10, EUnlock); (11, ECall 0 1 false); (11, ELock); (11, EWait 1); (20, ECall 3 0 true); (20, ELock); (20, EBcast 0); (20, EBcast 1); (20, EUnlock); (11, EWake 1); (11, EUnlock)]);
-    (Stw.mkcfg 0 false true true,
+    (Stw.mkcfg 0 false true true true,
      [(10, ECall 0 0 false); (10, ELock); (10, EEnq 0); (10, EBcast 0); (10, EUnlock); (10, ERet 0 true); (10, ECall 0 1 false); (10, ELock); (10, EEnq 1); (10, EBcast 0); (10, EUnlock); (11, ECall 1 2 false); (11, ELock); (11, EDiscard 0); (11, EDiscard 1)]);
-    (Stw.mkcfg 1 true false true,
+    (Stw.mkcfg 1 true false true true,
      [(10, ECall 0 0 false); (10, ELock); (10, EEnq 0); (10, EBcast 0); (10, EUnlock); (11, ECall 0 1 false); (11, ELock); (11, EWait 1); (20, ECall 3 0 false); (20, ELock); (20, EBcast 0); (20, EBcast 1); (20, EUnlock); (11, EWake 1); (11, EUnlock)]);
-    (Stw.mkcfg 0 false true true,
+    (Stw.mkcfg 0 false true true true,
      [(10, ECall 0 0 false); (10, ELock); (10, EEnq 0); (10, EBcast 0); (10, EUnlock); (11, ECall 0 1 false); (11, ELock); (11, EEnq 1); (11, EBcast 0); (11, EUnlock); (20, ECall 3 0 false); (20, ELock); (20, EDiscard 0); (20, EDiscard 1)]);
-    (Stw.mkcfg 1 false true true,
+    (Stw.mkcfg 1 false true true true,
      [(0, ELock); (0, EUnlock); (10, ECall 0 0 false); (10, ELock); (10, EEnq 0); (10, EBcast 0); (10, EUnlock); (20, ECall 3 0 true); (20, ELock); (20, EBcast 0); (20, EUnlock); (0, ELock); (0, EUnlock)]);
-    (Stw.mkcfg 1 true true true,
+    (Stw.mkcfg 1 true true true true,
      [(10, ECall 0 0 false); (10, ELock); (10, EEnq 0); (10, EBcast 0); (10, EUnlock); (11, ECall 0 1 false); (11, ELock); (11, EWait 1); (0, ELock); (0, EDeq 0); (0, EUnlock); (11, EWake 1); (11, EEnq 1)]);
-    (Stw.mkcfg 1 true true true,
+    (Stw.mkcfg 1 true true true true,
+     [(10, ECall 0 0 false); (10, ELock); (10, EEnq 0); (10, EBcast 0); (10, EUnlock); (0, ELock); (0, EDeq 0); (0, EUnlock); (0, ERun 0); (0, ECall 3 0 false); (0, ELock); (0, EUnlock); (0, ERet 3 false)]);
+    (Stw.mkcfg 1 true true true false,
+     [(10, ECall 0 0 false); (10, ELock); (10, EEnq 0); (10, EBcast 0); (10, EUnlock); (0, ELock); (0, EDeq 0); (0, EUnlock); (0, ERun 0); (0, ECall 3 0 false); (0, ELock); (0, ERet 3 false)]);
+    (Stw.mkcfg 1 true true true true,
+     [(10, ECall 0 0 false); (10, ELock); (10, EEnq 0); (10, EBcast 0); (10, EUnlock); (0, ELock); (0, EDeq 0); (0, EUnlock); (0, ERun 0); (0, ECall 3 0 true)]);
+    (Stw.mkcfg 1 true true true true,
      [(10, ECall 0 0 false); (10, ELock); (10, EEnq 0); (10, EBcast 0); (10, EUnlock); (11, ECall 0 1 false); (11, ELock); (11, EWait 1); (11, EWake 1); (11, EWait 1)]);
-    (Stw.mkcfg 1 true true true,
+    (Stw.mkcfg 1 true true true true,
      [(10, ECall 0 0 false); (10, ELock); (10, EEnq 0); (10, EBcast 0); (10, EUnlock); (20, ECall 3 0 false); (20, ELock); (20, EDiscard 0); (20, EBcast 0)]);
-    (Stw.mkcfg 1 true true true,
+    (Stw.mkcfg 1 true true true true,
      [(10, ECall 0 0 false); (10, ELock); (10, EEnq 0); (10, EBcast 0); (10, EUnlock); (11, ECall 1 1 false); (11, ELock); (11, EDiscard 0); (11, EEnq 1)]);
-    (Stw.mkcfg 1 true true true,
+    (Stw.mkcfg 1 true true true true,
      [(0, ELock); (0, EUnlock); (10, ECall 0 0 false); (10, ELock); (10, EEnq 0); (10, EBcast 0); (10, EUnlock); (0, ELock); (0, EUnlock)]);
-    (Stw.mkcfg 1 true false true,
+    (Stw.mkcfg 1 true false true true,
      [(10, ECall 0 0 false); (10, ELock); (10, EEnq 0); (10, EBcast 0); (10, EUnlock); (11, ECall 1 1 false); (11, ELock); (11, EEnq 1)]);
-    (Stw.mkcfg 1 false true true,
+    (Stw.mkcfg 1 false true true true,
      [(10, ECall 0 0 false); (10, ELock); (10, EEnq 0); (10, EBcast 0); (10, EUnlock); (11, ECall 0 1 false); (11, ELock); (11, EUnlock)]);
-    (Stw.mkcfg 1 true true true,
+    (Stw.mkcfg 1 true true true true,
      [(10, ECall 0 0 false); (10, ELock); (10, EEnq 0); (10, EBcast 0); (10, EUnlock); (11, ECall 2 1 false); (11, ELock); (11, EUnlock)]);
-    (Stw.mkcfg 1 false true true,
+    (Stw.mkcfg 1 false true true true,
      [(10, ECall 1 0 false); (20, ECall 3 0 false); (20, ELock); (20, EBcast 0); (20, EUnlock); (10, ELock); (10, EUnlock)]);
-    (Stw.mkcfg 1 false true true,
+    (Stw.mkcfg 1 false true true true,
      [(10, ECall 2 0 false); (20, ECall 3 0 false); (20, ELock); (20, EBcast 0); (20, EUnlock); (10, ELock); (10, EUnlock)]);
-    (Stw.mkcfg 1 false true true,
+    (Stw.mkcfg 1 false true true true,
      [(10, ECall 0 0 false); (20, ECall 3 0 false); (20, ELock); (20, EBcast 0); (20, EUnlock); (10, ELock); (10, EUnlock)]);
-    (Stw.mkcfg 1 true true true,
+    (Stw.mkcfg 1 true true true true,
      [(0, ELock); (0, EUnlock); (0, ELock); (0, EWait 0); (0, EWake 0); (0, EUnlock)]);
-    (Stw.mkcfg 1 true true true,
+    (Stw.mkcfg 1 true true true true,
      [(10, ECall 4 0 false); (10, ELock); (10, EUnlock); (10, ERet 0 false)]);
-    (Stw.mkcfg 1 true true true,
+    (Stw.mkcfg 1 true true true true,
      [(10, ECall 1 0 false); (10, ELock); (10, EEnq 0)]);
-    (Stw.mkcfg 1 true true true,
-     [(10, ECall 2 0 false); (10, ELock); (10, EEnq 0)]) ].
+    (Stw.mkcfg 1 true true true true,
+     [(10, ECall 2 0 false); (10, ELock); (10, EEnq 0)]);
+    (Stw.mkcfg 1 true false false true,
+     [(10, ECall 0 0 false); (10, ELock); (10, EEnq 0); (10, EBcast 0); (10, EUnlock); (11, ECall 0 1 false); (11, ELock); (11, EWait 1); (20, ECall 3 0 false); (20, ELock); (20, EBcast 0); (20, EBcast 1); (20, EUnlock); (11, EWake 1); (11, EEnq 1)]) ].
 
 Definition tp_witness : list (Tp.cfg * list (tid * ev)) :=
   [ (Tp.mkcfg 1 0 0 false false,
@@ -265,10 +280,6 @@ Definition tp_witness : list (Tp.cfg * list (tid * ev)) :=
      [(0, ELock); (0, EUnlock); (0, ELock); (0, EUnlock); (10, ECall 0 0 false); (10, ELock); (10, EEnq 0); (10, ESignal 0 None); (10, EUnlock); (10, ERet 0 true); (10, ECall 0 1 false); (10, ELock); (10, EEnq 1); (10, ESpawn 30); (10, ESignal 0 None); (10, EUnlock); (20, ECall 3 0 false); (20, ELock); (20, EBcast 0); (20, EUnlock); (30, ELock); (30, EUnlock); (30, ELock); (30, EUnlock); (30, ELock); (30, EUnlock)]);
     (Tp.mkcfg 1 0 1 true true,
      [(0, ELock); (0, EUnlock); (0, ELock); (0, EUnlock); (10, ECall 0 0 false); (10, ELock); (10, EEnq 0); (10, ESignal 0 None); (10, EUnlock); (10, ERet 0 true); (10, ECall 0 1 false); (10, ELock); (10, EEnq 1); (10, ESpawn 30); (10, ESignal 0 None); (10, EUnlock); (30, ELock); (30, EUnlock); (30, ELock); (30, EDeq 0); (30, EUnlock); (30, ERun 0); (30, EDone 0); (30, ELock); (30, EUnlock)]);
-    (Tp.mkcfg 1 2 0 false true,
-     [(10, ECall 0 0 false); (10, ELock); (10, EEnq 0); (10, ESignal 0 None); (10, EUnlock); (10, ERet 0 true); (10, ECall 0 1 false); (10, ELock); (10, EEnq 1); (10, ESignal 0 None); (10, EUnlock); (10, ERet 0 true); (10, ECall 0 2 false); (20, ECall 3 0 true); (20, ELock); (20, EBcast 0); (20, EUnlock); (10, ELock); (10, EUnlock)]);
-    (Tp.mkcfg 1 0 1 true false,
-     [(0, ELock); (0, EUnlock); (0, ELock); (0, EUnlock); (10, ECall 0 0 false); (10, ELock); (10, EEnq 0); (10, ESignal 0 None); (10, EUnlock); (10, ERet 0 true); (10, ECall 0 1 false); (10, ELock); (10, EEnq 1); (10, ESpawn 30); (10, ESignal 0 None); (10, EUnlock); (30, ELock); (30, EUnlock)]);
     (Tp.mkcfg 1 0 1 true true,
      [(0, ELock); (0, EUnlock); (0, ELock); (0, EUnlock); (20, ECall 3 0 false); (20, ELock); (20, EBcast 0); (20, EUnlock); (0, ELock); (0, EUnlock); (0, EExit); (20, EJoin 0); (20, EFree); (20, ERet 0 false); (20, ECall 3 0 false); (20, ELock); (20, EUnlock)]);
     (Tp.mkcfg 1 2 0 true true,
@@ -279,14 +290,20 @@ Definition tp_witness : list (Tp.cfg * list (tid * ev)) :=
      [(0, ELock); (0, EUnlock); (0, ELock); (0, EUnlock); (0, ELock); (0, EWait 0); (10, ECall 0 0 false); (10, ELock); (10, EEnq 0); (10, ESignal 0 (Some 0))]);
     (Tp.mkcfg 1 0 1 true true,
      [(0, ELock); (0, EUnlock); (0, ELock); (0, EUnlock); (0, ELock); (0, EWait 0); (0, EWake 0); (0, EUnlock)]);
-    (Tp.mkcfg 1 0 1 false true,
-     [(10, ECall 0 0 false); (20, ECall 3 0 false); (20, ELock); (20, EBcast 0); (20, EUnlock); (10, ELock); (10, EEnq 0)]);
     (Tp.mkcfg 1 0 1 true true,
      [(10, ECall 0 0 false); (20, ECall 3 0 false); (20, ELock); (20, EBcast 0); (20, EUnlock); (10, ELock); (10, EUnlock)]);
     (Tp.mkcfg 1 0 1 true true,
      [(11, ECall 4 0 false); (11, ELock); (11, EUnlock); (11, ERet 0 false)]);
     (Tp.mkcfg 1 0 1 true true,
-     [(11, ECall 5 0 false); (11, ELock); (11, EUnlock)]) ].
+     [(11, ECall 5 0 false); (11, ELock); (11, EUnlock)]);
+    (Tp.mkcfg 1 0 1 true true,
+     [(20, ECall 3 0 true); (20, ELock); (20, EBcast 0)]);
+    (Tp.mkcfg 1 2 0 false true,
+     [(10, ECall 0 0 false); (10, ELock); (10, EEnq 0); (10, ESignal 0 None); (10, EUnlock); (10, ERet 0 true); (10, ECall 0 1 false); (10, ELock); (10, EEnq 1); (10, ESignal 0 None); (10, EUnlock); (10, ERet 0 true); (10, ECall 0 2 false); (20, ECall 3 0 true); (20, ELock); (20, EBcast 0); (20, EUnlock); (10, ELock); (10, EUnlock)]);
+    (Tp.mkcfg 1 0 1 true false,
+     [(0, ELock); (0, EUnlock); (0, ELock); (0, EUnlock); (10, ECall 0 0 false); (10, ELock); (10, EEnq 0); (10, ESignal 0 None); (10, EUnlock); (10, ERet 0 true); (10, ECall 0 1 false); (10, ELock); (10, EEnq 1); (10, ESpawn 30); (10, ESignal 0 None); (10, EUnlock); (30, ELock); (30, EUnlock)]);
+    (Tp.mkcfg 1 0 1 false true,
+     [(10, ECall 0 0 false); (20, ECall 3 0 false); (20, ELock); (20, EBcast 0); (20, EUnlock); (10, ELock); (10, EEnq 0)]) ].
 
 Definition stw_edges : list edge := flat_map (fun w => stw_edges_of_run (fst w) (snd w)) stw_witness.
 Definition tp_edges : list edge := flat_map (fun w => tp_edges_of_run (fst w) (snd w)) tp_witness.
